@@ -101,6 +101,24 @@ Json gen(sim::Rng& rng, int tier)
         p["sched"]["pause_max_us"] = static_cast<int>(500 + rng.below(20000));
         p["sched"]["max_pauses"] = static_cast<int>(4 + rng.below(30));
     }
+    // mix "hand-over": a fast network, a server that closes behind most answers, and *application* threads that are
+    // descheduled where a connection changes hands, for longer than a round trip: before they take a promise's lock to
+    // attach the continuation that waits for connect() (the connection is then established first and the continuation
+    // runs on the issuing thread), in the connection's own queue, around the claim - so that the tail of the previous
+    // user's work overlaps with the start of the next user's. (A pause *inside* then() holds the promise's lock and
+    // only delays the resolver; the pause has to come before the lock.)
+    if (closing_server && rng.chance(0.5)) {
+        p["latency_us"] = static_cast<int>(2 + rng.below(20));
+        static const char* kHand[] = { "queue.pop.load", "queue.pop.load", "queue.pop.load", "queue.push.exchange", "queue.push.link", "sys.connect", "atomic", "promise.then.push", "sys.write" };
+        Json hs = Json::array();
+        hs.push(std::string("mutex.lock"));
+        hs.push(std::string(kHand[rng.below(sizeof kHand / sizeof kHand[0])]));
+        p["sched"]["hot_sites"] = hs;
+        p["sched"]["hot_thread_prefix"] = "issuer";
+        p["sched"]["hot_pause_permille"] = static_cast<int>(200 + rng.below(600));
+        p["sched"]["pause_max_us"] = static_cast<int>(100 + rng.below(1500));
+        p["sched"]["max_pauses"] = static_cast<int>(6 + rng.below(40));
+    }
     return p;
 }
 
